@@ -38,39 +38,51 @@ def slice_of(topics=(), kinds=(), relay_only=False, answer_only=False, outs=None
 
 COMP = ['typeAdd', 'typeGetName', 'typeGetId', 'compAdd', 'compDelete', 'compUpdate', 'compList']
 
+ANSWERS = {'error', 'pingResp', 'joinResp', 'entityAddResp', 'entityDeleteResp', 'typeAddResp', 'typeNameResp', 'typeIdResp',
+           'compAddResp', 'compDeleteResp', 'compListResp', 'subscribeResp', 'unsubscribeResp', 'receiptResp', 'actionResp',
+           'assetAddResp', 'groundPlaneResp', 'regionResp', 'debugInfoResp', 'latencyResp'}
+RELAYS = {'joinBcast', 'leaveBcast', 'entityAddBcast', 'entityDeleteBcast', 'poseBcast', 'customBcast', 'actionBcast', 'assetAddBcast'}
+COMPOUTS = {'compAddBcast', 'compDeleteBcast', 'compUpdateBcast', 'compAddResp', 'compDeleteResp', 'compListResp', 'typeAddResp',
+            'typeNameResp', 'typeIdResp', 'error'}
+
 PROPS = {
     'C02': dict(modules=['Hagall.Props.C02'], profiles=['mixed', 'join', 'module', 'custom', 'pose'], n=(240, 4000),
                 focus={'join', 'entityAdd', 'entityDelete', 'updatePose', 'custom', 'action', 'assetAdd'},
                 topics=slice_of(['join', 'entityAdd', 'entityDelete', 'updatePose', 'custom', 'action', 'assetAdd', 'disconnect'],
-                                relay_only=True)),
+                                relay_only=True, outs=RELAYS)),
     'C04': dict(modules=['Hagall.Props.C04'], profiles=['mixed', 'comp', 'module', 'malformed', 'latency'], n=(240, 4000),
                 focus=None,
-                topics=slice_of(ALL_TOPICS, kinds=['outcome'], answer_only=True)),
+                topics=slice_of(ALL_TOPICS, kinds=['outcome'], answer_only=True, outs=ANSWERS)),
     'C05': dict(modules=['Hagall.Props.C05'], profiles=['pose', 'mixed', 'module'], n=(240, 4000),
                 focus={'entityDelete', 'updatePose', 'assetAdd'},
-                topics=slice_of(['entityDelete', 'updatePose', 'assetAdd'])),
+                topics=slice_of(['entityDelete', 'updatePose', 'assetAdd'],
+                                outs={'error', 'entityDeleteResp', 'entityDeleteBcast', 'poseBcast', 'assetAddResp', 'assetAddBcast'})),
     'C06': dict(modules=['Hagall.Props.C06'], profiles=['join', 'module', 'comp', 'mixed'], n=(240, 4000),
                 focus={'join', 'entityAdd', 'compAdd', 'action', 'assetAdd'},
-                topics=slice_of(['disconnect', 'join', 'receipt'], kinds=['outcome'])),
+                topics=slice_of(['disconnect', 'join', 'receipt'], kinds=['outcome'],
+                                outs={'leaveBcast', 'entityDeleteBcast', 'sessionState', 'vikjaState', 'odalState'})),
     'C07': dict(modules=['Hagall.Props.C07'], profiles=['join', 'mixed'], n=(240, 4000), focus={'join'},
-                topics=slice_of(['join', 'disconnect'], kinds=['state', 'gauge'])),
+                topics=slice_of(['join', 'disconnect'], kinds=['state', 'gauge'], outs={'joinResp', 'error'})),
     'C10': dict(modules=['Hagall.Props.C10'], profiles=['join', 'mixed', 'comp', 'module'], n=(240, 4000), focus={'join', 'entityAdd', 'typeAdd', 'assetAdd'},
-                topics=slice_of(['join', 'entityAdd', 'typeAdd', 'typeGetName', 'typeGetId', 'assetAdd'], kinds=['state'], answer_only=True)),
+                topics=slice_of(['join', 'entityAdd', 'typeAdd', 'typeGetName', 'typeGetId', 'assetAdd'], kinds=['state'], answer_only=True,
+                                outs={'joinResp', 'entityAddResp', 'typeAddResp', 'typeNameResp', 'typeIdResp', 'assetAddResp'})),
     'C12': dict(modules=['Hagall.Props.C12'], profiles=['comp', 'mixed'], n=(240, 4000), focus=set(COMP) | {'entityDelete'},
-                topics=slice_of(COMP + ['entityDelete'])),
+                topics=slice_of(COMP + ['entityDelete', 'join', 'disconnect'], outs=COMPOUTS | {'sessionState'})),
     'C13': dict(modules=['Hagall.Props.C13'], profiles=['comp', 'mixed'], n=(240, 4000),
                 focus={'compAdd', 'compDelete', 'compUpdate', 'subscribe', 'unsubscribe'},
-                topics=slice_of(['compAdd', 'compDelete', 'compUpdate', 'subscribe', 'unsubscribe', 'disconnect', 'join'])),
+                topics=slice_of(['compAdd', 'compDelete', 'compUpdate', 'subscribe', 'unsubscribe'],
+                                outs={'compAddBcast', 'compDeleteBcast', 'compUpdateBcast', 'subscribeResp', 'unsubscribeResp', 'error'})),
     'C14': dict(modules=['Hagall.Props.C14'], profiles=['custom', 'mixed'], n=(240, 4000), focus={'custom'},
                 topics=slice_of(['custom'])),
     'C16': dict(modules=['Hagall.Props.C16'], profiles=['module', 'mixed'], n=(240, 4000), focus={'action', 'assetAdd'},
-                topics=slice_of(['action', 'assetAdd', 'join', 'entityDelete', 'disconnect'])),
+                topics=slice_of(['action', 'assetAdd', 'join', 'entityDelete', 'disconnect'],
+                                outs={'vikjaState', 'odalState', 'actionResp', 'actionBcast', 'assetAddResp', 'assetAddBcast', 'error'},
+                                pred=lambda d: not (d.get('topic') in ('entityDelete', 'disconnect') and d['outs'] <= {'error'}))),
     'C17': dict(modules=['Hagall.Props.C17'], profiles=['mixed', 'comp', 'pose', 'custom', 'join'], n=(240, 4000), focus=None,
                 gen_args=[], topics=slice_of(ALL_TOPICS + ['disconnect'], outs=GATED)),
 }
-
 PROPS['C18'] = dict(modules=['Hagall.Props.C18'], profiles=['latency', 'mixed'], n=(240, 4000), focus={'signedLatency', 'pingResp'},
-                    extra=['latency_stats'], topics=slice_of(['signedLatency', 'pingResp', 'ping']))
+                    extra=['latency_stats'], topics=slice_of(['signedLatency', 'pingResp', 'ping'], outs={'pingReq', 'latencyResp', 'error', 'pingResp'}))
 
 # every property's obligations include the facts it rests on (regenerated from the source on every run)
 ABS = {'C14': ['Hagall.Gen.AbsCustom'], 'C17': ['Hagall.Gen.AbsFlags'], 'C04': ['Hagall.Gen.AbsDispatch'],
